@@ -208,27 +208,60 @@ func checkC16(w *Worker) {
 	})
 	// explicit configuration file that does not exist is an error; one that exists is loaded
 	w.Explore("explicit-config-file", ExploreOpts{ShardDepth: 2}, func(x *Exec) {
-		how := x.Choose(2, "input:how") // --config / HR_CONFIG
-		exists := x.Choose(2, "input:exists")
+		how := x.Choose(3, "input:how") // --config / HR_CONFIG / -c
+		kinds := []string{"missing", "regular file", "symbolic link to a regular file", "/dev/null", "symbolic link to /dev/null", "named pipe", "dangling symbolic link", "empty regular file", "file in a subdirectory", "regular file without a final newline"}
+		kind := x.Choose(len(kinds), "input:kind-of-file")
 		files := map[string]string{"food.yaml": chainBook(4, 1), "log.yaml": "2001/02/03:\n  r: 1\n", "other.yaml": "2001/02/03:\n  r: 7\n"}
-		if exists == 1 {
-			files["x.cfg"] = "[Global]\nLogFileName=other.yaml\n"
+		cfg := "[Global]\nLogFileName=other.yaml\n"
+		name, exists, loaded := "x.cfg", true, true
+		switch kind {
+		case 0:
+			exists = false
+		case 1:
+			files["x.cfg"] = cfg
+		case 2:
+			files["real.cfg"] = cfg
+			files["x.cfg"] = symlinkPrefix + "real.cfg"
+		case 3:
+			name, loaded = "/dev/null", false
+		case 4:
+			files["x.cfg"] = symlinkPrefix + "/dev/null"
+			loaded = false
+		case 5:
+			files["x.cfg"] = fifoPrefix + cfg
+		case 6:
+			files["x.cfg"] = symlinkPrefix + "nowhere.cfg"
+			exists = false
+		case 7:
+			files["x.cfg"] = ""
+			loaded = false
+		case 8:
+			name = "conf.d/x.cfg"
+			files[name] = cfg
+		case 9:
+			files["x.cfg"] = "[Global]\nLogFileName=other.yaml"
 		}
 		c := appCase{Args: []string{"--no-color", "csv", "log"}, Files: files, Mod: patchDefault}
-		if how == 0 {
-			c.Args = append([]string{"--config", "x.cfg"}, c.Args...)
-		} else {
-			c.Env = map[string]string{"HR_CONFIG": "x.cfg"}
+		switch how {
+		case 0:
+			c.Args = append([]string{"--config", name}, c.Args...)
+		case 1:
+			c.Env = map[string]string{"HR_CONFIG": name}
+		default:
+			c.Args = append([]string{"-c", name}, c.Args...)
 		}
 		r := runApp(c)
 		x.Obs(r.Key())
-		x.Case(fmt.Sprint(how, exists), true)
+		x.Case(fmt.Sprint(how, kind), true)
 		rep := map[string]interface{}{"cmd": c.shell(), "observed": r.String()}
-		if exists == 0 && !r.Failed {
-			x.Violate("C16|missing-explicit-config-accepted", fmt.Sprintf("`%s` succeeded although x.cfg does not exist:\n%s", c.shell(), r.String()), rep)
-		}
-		if exists == 1 && (r.Failed || !strings.Contains(r.Stdout, "7.000")) {
-			x.Violate("C16|existing-explicit-config-not-loaded", fmt.Sprintf("`%s` with an existing x.cfg (LogFileName=other.yaml): %s", c.shell(), r.String()), rep)
+		switch {
+		case !exists && !r.Failed:
+			x.Violate("C16|missing-explicit-config-accepted", fmt.Sprintf("`%s` succeeded although %s does not exist (%s):\n%s", c.shell(), name, kinds[kind], r.String()), rep)
+		case exists && loaded && (r.Failed || !strings.Contains(r.Stdout, "7.000")):
+			x.Violate("C16|existing-explicit-config-not-loaded", fmt.Sprintf("`%s` with an existing %s (%s; LogFileName=other.yaml): %s", c.shell(), name, kinds[kind], r.String()), rep)
+		case exists && !loaded && (r.Failed || !strings.Contains(r.Stdout, "1.000")):
+			// an existing file without entries: loaded, every setting keeps its default
+			x.Violate("C16|existing-empty-explicit-config-not-accepted", fmt.Sprintf("`%s` with an existing, empty %s (%s): %s", c.shell(), name, kinds[kind], r.String()), rep)
 		}
 	})
 	// --no-database behaves as an empty recipe book
